@@ -166,6 +166,7 @@ Inductive spc :=
 | STest2 (adopted d : bool)    (* next: second donepath.exists() *)
 | SReady                       (* waits until the job is READY (dependencies) *)
 | SLock                        (* aio_start; next: take the job lock (blocking) *)
+| STest3                       (* lock held; next: donepath test under the lock (repaired aio_start only) *)
 | STrunc                       (* lock held; next: mkdir, params.json, open(script, "wt") *)
 | SWrite                       (* lock held; next: write + close the script *)
 | SSpawn                       (* lock held; next: Popen *)
@@ -178,12 +179,12 @@ Inductive spc :=
 | SStuck.                      (* aio_submit raised: the job never becomes final, the experiment never ends *)
 
 Definition slocked (c : spc) : bool :=
-  match c with STrunc | SWrite | SSpawn | SCreatePid _ | SWritePid _ | SUnlock _ => true | _ => false end.
+  match c with STest3 | STrunc | SWrite | SSpawn | SCreatePid _ | SWritePid _ | SUnlock _ => true | _ => false end.
 (* an attempt is over: a new one may begin *)
 Definition sover (c : spc) : bool := match c with SIdle | SFinal _ | SDead => true | _ => false end.
 (* between a negative aio_process() and the write of the pid file *)
 Definition sprelaunch (c : spc) : bool :=
-  match c with STest2 false _ | SReady | SLock | STrunc | SWrite | SSpawn => true | _ => false end.
+  match c with STest2 false _ | SReady | SLock | STest3 | STrunc | SWrite | SSpawn => true | _ => false end.
 (* the scheduler owns a child / an adopted process *)
 Definition schild (c : spc) : option nat :=
   match c with SCreatePid p | SWritePid p | SUnlock p | SWait p | SAdopt p => Some p | _ => None end.
@@ -271,6 +272,7 @@ Inductive label :=
 | LReady (s : nat)       (* the job became READY (all dependencies DONE) *)
 | LDepFail (s : nat)     (* a dependency failed *)
 | LSLock (s : nat)
+| LTest3 (s : nat)       (* repaired aio_start: the marker is tested again once the job lock is held *)
 | LAbort (s : nat)       (* aio_start gives up after taking the job lock (a token could not be taken):
                            the lock is released and the job waits to be READY again *)
 | LTrunc (s : nat)
@@ -297,7 +299,7 @@ Inductive label :=
 Definition lbl_sched (l : label) : option nat :=
   match l with
   | LSubmit s | LTest1 s | LPid s | LAdoptEnd s | LTest2 s | LReady s | LDepFail s | LSLock s
-  | LAbort s | LTrunc s | LWrite s | LSpawn s | LCreatePid s | LWritePid s | LSUnlock s | LWaitEnd s | LCrash s => Some s
+  | LTest3 s | LAbort s | LTrunc s | LWrite s | LSpawn s | LCreatePid s | LWritePid s | LSUnlock s | LWaitEnd s | LCrash s => Some s
   | _ => None
   end.
 
@@ -305,8 +307,9 @@ Definition view_of_code (c : xcode) : view := match c with XFail => VError | _ =
 
 (* The transition function: None = the effect is not enabled in this state.
    [fixed] = the repaired code: aio_process() treats a pid file without content as "no process
-   information", and the job script is written aside and renamed;  false = the pinned code, where
-   json.loads("") raises inside aio_submit and the script is rewritten in place. *)
+   information", the job script is written aside and renamed, and aio_start tests the marker again once it
+   holds the job lock;  false = the pinned code, where json.loads("") raises inside aio_submit, the script
+   is rewritten in place, and aio_start launches whatever happened while it waited for the lock. *)
 Definition lstep_with (fixed : bool) (l : label) (st : jobdir) : option jobdir :=
   match l with
   | LSubmit s => if sover (scheds st s) then Some (set_sched st s STest1) else None
@@ -341,8 +344,15 @@ Definition lstep_with (fixed : bool) (l : label) (st : jobdir) : option jobdir :
   | LDepFail s => match scheds st s with SReady => Some (set_sched st s (SFinal VError)) | _ => None end
   | LSLock s =>
       match scheds st s, lock st with
-      | SLock, None => Some (set_sched (set_lock st (Some (ASched s))) s STrunc)
+      | SLock, None => Some (set_sched (set_lock st (Some (ASched s))) s (if fixed then STest3 else STrunc))
       | _, _ => None
+      end
+  | LTest3 s =>
+      (* completed by another process while this scheduler waited for the lock: nothing is launched *)
+      match scheds st s with
+      | STest3 => if done st then Some (set_sched (set_lock st (release (ASched s) (lock st))) s (SFinal VDone))
+                  else Some (set_sched st s STrunc)
+      | _ => None
       end
   | LAbort s =>
       match scheds st s with
